@@ -1,5 +1,102 @@
-import PilotaModel.Idl.WF
+import PilotaModel.Lemmas.IdlFile
+/-
+  C15 — the IDL parser inverts printing, independent of layout.
+
+  `File.parse` (Idl/Parser.lean) is what T1 compares with `File::parse` of pilota-thrift-parser;
+  `render` (Idl/Printer.lean) is what T1 compares with the harness printer that produces every
+  C15 request (`render=1` in the answers).  A `Layout` is an arbitrary list of choices: whitespace
+  runs and `//` `#` `/* */` comments at every blank, `,` `;` or nothing at every optional
+  separator, single or double quotes at every literal.
+
+  STAGE REACHED: `file_rt_partial` covers documents whose items are `include`, `cpp_include`,
+  `namespace` and `typedef` (with every type form, `cpp_type`, annotations) — `Item.supported`.
+  The tower below it (`blank_any` … `type_rt`) is proved for the full grammar of those layers.
+  Full statement, not yet proved:
+
+    theorem file_rt (f : File) (hf : f.wf = true) (hne : f.items ≠ []) (l : Layout) :
+        File.parse (render l f) = .ok f []
+
+  (`hne`: an empty declaration list rendered with a non-empty blank is rejected by the real parser —
+  finding DI1, `empty_document_blank_counterexample`.)
+-/
 namespace Pilota.Props.C15
 open Pilota.Idl
-theorem placeholder : (1 : Nat) = 1 := rfl
+
+/-- `blank` consumes every non-empty rendered blank — any sequence of whitespace pieces and of the
+three comment styles — when the text that follows does not start a blank itself. -/
+theorem blank_any (ps : List Piece) (r : List Char) (hne : blankText ps ≠ []) (hr : NB r) :
+    blank (blankText ps ++ r) = .ok () r :=
+  blank_rt (BT.of_blankText ps) hne hr
+
+theorem ident_rt (i r : List Char) (hi : identOk i = true) (hr : hdP (fun c => !isIdentChar c) r = true) :
+    Ident.parse (i ++ r) = .ok i r := Pilota.Idl.ident_rt hi hr
+
+/-- both quote styles: the layout's preference is honoured whenever the text permits it -/
+theorem literal_rt (preferDouble : Bool) (t r : List Char) (h : literalOk t = true) :
+    Literal.parse (quoteFor preferDouble t :: (t ++ quoteFor preferDouble t :: r)) = .ok t r :=
+  Pilota.Idl.literal_rt preferDouble h
+
+theorem int_rt (d : Nat) (n : Int) (r : List Char) (hn : intOk n = true) (hr : Sep r) :
+    IntConstant.parse (d + 2) (intText n ++ r) = .ok n r := intConstant_rt d hn hr
+
+theorem path_rt (p : Path) (hp : p.wf = true) (l : Layout) (r : List Char)
+    (hr : hdP (fun c => !isIdentChar c) r = true) (hstop : PathStop r) :
+    Path.parse ((rPath p l).1 ++ r) = .ok p r := Pilota.Idl.path_rt hp l hr hstop
+
+theorem annotations_rt (as : Annotations) (hw : Annotations.wf as = true) (hne : as ≠ []) (l : Layout) (r : List Char) :
+    Annotations.parse ((rAnns as l).1 ++ r) = .ok as r := Pilota.Idl.annotations_rt hw hne l r
+
+/-- every type — base types, `list` / `set` / `map` with `cpp_type`, names, annotations, nested
+to any depth — under every layout -/
+theorem type_rt (t : TypeA) (hw : t.wf = true) (d : Nat) (hd : t.depth < d) (l : Layout) (r : List Char)
+    (hf : TypeFollow t r) : Type.parse d ((rType t l).1 ++ r) = .ok t r :=
+  Pilota.Idl.type_rt t hw d hd l r hf
+
+/-- An identifier that merely begins with a keyword (`trueValue`, `falsey`, `optionalFoo`,
+`required_x`, `i32x`, `stringify`, …) is never read as that keyword: wherever the parser tests
+`tuple((tag(kw), peek(not(alphanumeric_or_underscore))))` the test fails on a longer word … -/
+theorem keyword_prefix_ident {α} (kw : List Char) (v : α) (i r : List Char)
+    (hk : ∀ c ∈ kw, isIdentChar c = true) (hi : identOk i = true) (hne : i ≠ kw)
+    (hr : hdP (fun c => !isIdentChar c) r = true) :
+    keyword kw v (i ++ r) = .err ∧ Ident.parse (i ++ r) = .ok i r :=
+  ⟨keyword_word_err hk (identOk_all hi) hr hne, Pilota.Idl.ident_rt hi hr⟩
+
+/-- … so that as a type it is read as a name (here: every word that is not exactly a base type
+name or `list` / `set` / `map`). -/
+theorem keyword_prefix_type (i : Ident) (hi : identOk i = true) (hne : typeWords.contains i = false)
+    (d : Nat) (l : Layout) (r : List Char) (hf : TypeFollow (.mk (.path ⟨[i]⟩) []) r) :
+    Type.parse (d + 1) (i ++ r) = .ok (.mk (.path ⟨[i]⟩) []) r := by
+  have hw : (TypeA.mk (.path ⟨[i]⟩) []).wf = true := by
+    simp only [TypeA.wf, Ty.wf, Path.wf, Path.head, List.headD, hne, Annotations.wf]
+    simp [hi]
+  have := Pilota.Idl.type_rt _ hw (d + 1) (by simp [TypeA.depth, Ty.depth]) l r hf
+  simpa [Type.parse, rType, rTy, rPath, rOptAnns, rSlots] using this
+
+/-- Stage theorem: parsing the rendering of a well-formed document returns exactly its items in
+order, its recomputed package, and leaves nothing unparsed — for EVERY layout. -/
+theorem file_rt_partial (f : File) (hf : f.wf = true) (hsub : f.items.all Item.supported = true)
+    (hne : f.items ≠ []) (l : Layout) : File.parse (render l f) = .ok f [] :=
+  file_parse_of_fileD (fun _ hd => fileD_rt hf (fun it hit => List.all_eq_true.mp hsub it hit) hne hd l)
+
+/-- Finding DI1: the empty document rendered with one space is rejected. -/
+theorem empty_document_blank_counterexample :
+    (File.parse (render [LChoice.mk [Piece.ws [' ']] 0 false] (File.mk none []))).isErr = true := by
+  decide
+
+/-! non-vacuity -/
+example : File.wf (File.mk (some (Path.mk [cs!"a", cs!"b"])) [
+    Item.«namespace» (Namespace.mk cs!"rs" (Path.mk [cs!"a", cs!"b"]) none),
+    Item.«include» cs!"base.thrift",
+    Item.typedef (Typedef.mk
+      (TypeA.mk (Ty.map (TypeA.mk Ty.string []) (TypeA.mk (Ty.list (TypeA.mk (Ty.path (Path.mk [cs!"i32x"])) [])
+        (some cs!"std::vector")) []) none) [Annotation.mk cs!"a.b" cs!"say \"hi\""])
+      cs!"trueValue" [])]) = true := by decide
+example : Item.supported (.typedef { ty := .mk .i32 [], alias := cs!"T", annotations := [] }) = true := rfl
+example : NB cs!"struct" ∧ blankText [.ws cs!" \n", .line cs!" c /* x", .block cs!"a */ b", .hash []] ≠ [] := by decide
+example : identOk cs!"trueValue" = true ∧ cs!"trueValue" ≠ cs!"true" := by decide
+example : intOk (-9223372036854775807) = true := by decide
+example : TypeFollow (.mk .i32 []) cs!" x" :=
+  typeFollow_name (.mk .i32 []) (BT.ws ' ' [] (by decide) BT.nil) (Or.inl (by simp)) (name := cs!"x") (X := [])
+    (by decide) (by decide) (by decide)
+
 end Pilota.Props.C15
